@@ -184,7 +184,10 @@ func (s SchedCase) ConfigT(maxSteps, total int) sched.Config {
 	}
 	sort.Ints(pre)
 	return sched.Config{Preempt: pre, Quantum: s.Quantum, Strategy: sched.Strategy(s.Strategy), Choices: s.Choices, SchedSeed: s.Seed, SitePct: s.SitePct, SiteSalt: s.SiteSalt,
-		PCTChanges: s.PCT, MaxSteps: maxSteps}
+		PCTChanges: s.PCT, MaxSteps: maxSteps,
+		// a goroutine that loops without ever reaching a communication point never comes back to the scheduler: the logical loop
+		// budget (one tick per iteration of every loop of the reader packages) ends it with a verdict instead of a real hang
+		MaxTicks: 20_000_000}
 }
 
 // sequential schedule used for reference runs
